@@ -420,7 +420,7 @@ func verifC09Committed(rt *rapid.T, c *verifC09Chan, newLEO uint64) uint64 {
 // committed watermark or the adopted retention boundary nor through a
 // proposal; retention is only adopted up to the committed watermark; trims
 // follow an adopted boundary; checkpoints never exceed the log end.
-func (w *verifC09World) genChanStep(rt *rapid.T, ci int, allowDiscard bool) verifC09Step {
+func (w *verifC09World) genChanStep(rt *rapid.T, ci int, allowDiscard bool, force string) verifC09Step {
 	c := w.Chans[ci]
 	type choice struct {
 		name string
@@ -434,15 +434,15 @@ func (w *verifC09World) genChanStep(rt *rapid.T, ci int, allowDiscard bool) veri
 	}
 	floor := c.floor()
 	cuts := c.boundaries(floor)
-	add("append", 40, true)
+	add("append", 30, true)
 	add("replay", 4, c.Exact && len(c.Props) > 0)
 	add("applyfetch", 12, !c.Exact)
-	add("checkpoint", 14, c.LEO > c.HW)
-	add("truncate", 12, len(cuts) > 0 && c.LEO > 0)
-	add("adopt", 12, c.HW > c.Adopted)
-	add("trim", 22, c.Adopted > c.Physical)
-	add("replace", 10, c.Exact && len(cuts) > 0)
-	add("epoch", 4, c.Exact)
+	add("checkpoint", 20, c.LEO > c.HW)
+	add("truncate", 14, len(cuts) > 0 && c.LEO > 0)
+	add("adopt", 30, c.HW > c.Adopted)
+	add("trim", 45, c.Adopted > c.Physical)
+	add("replace", 12, c.Exact && len(cuts) > 0)
+	add("epoch", 8, c.Exact)
 	add("discard", 2, allowDiscard && c.LEO > 0)
 	total := 0
 	for _, x := range cs {
@@ -456,6 +456,11 @@ func (w *verifC09World) genChanStep(rt *rapid.T, ci int, allowDiscard bool) veri
 			break
 		}
 		pick -= x.w
+	}
+	for _, x := range cs {
+		if x.name == force {
+			name = force // warm-up: a forced kind, only when it is enabled
+		}
 	}
 	st := verifC09Step{Kind: name, Ch: ci}
 	switch name {
@@ -500,6 +505,9 @@ func (w *verifC09World) genChanStep(rt *rapid.T, ci int, allowDiscard bool) veri
 		st.HWs = []verifC09HW{{Ch: ci, HW: hw}}
 		c.HW, c.HasCP = hw, true
 	case "truncate":
+		if len(cuts) > 1 && rapid.IntRange(0, 4).Draw(rt, "realCut") > 0 {
+			cuts = cuts[:len(cuts)-1] // below the log end: the truncation removes rows
+		}
 		st.To = rapid.SampledFrom(cuts).Draw(rt, "to")
 		c.truncate(st.To, c.Exact)
 	case "adopt":
@@ -518,6 +526,9 @@ func (w *verifC09World) genChanStep(rt *rapid.T, ci int, allowDiscard bool) veri
 		c.Physical = end
 	case "replace":
 		st.Expected = c.frontier()
+		if len(cuts) > 1 && rapid.Bool().Draw(rt, "realCut") {
+			cuts = cuts[:len(cuts)-1]
+		}
 		st.To = rapid.SampledFrom(cuts).Draw(rt, "keepThrough")
 		c.truncate(st.To, true)
 		n := rapid.IntRange(0, 2).Draw(rt, "nProposals")
@@ -596,12 +607,12 @@ func (w *verifC09World) genStep(rt *rapid.T, reopenPct int) verifC09Step {
 			if len(st.Par) >= 2 && rapid.Bool().Draw(rt, "skipChannel") {
 				continue
 			}
-			st.Par = append(st.Par, w.genChanStep(rt, ci, false))
+			st.Par = append(st.Par, w.genChanStep(rt, ci, false, ""))
 		}
 		return st
 	}
 	ci := rapid.IntRange(0, len(w.Chans)-1).Draw(rt, "channel")
-	return w.genChanStep(rt, ci, true)
+	return w.genChanStep(rt, ci, true, "")
 }
 
 // verifC09History is a generated history with the reference state before
@@ -618,8 +629,20 @@ func verifC09GenHistory(rt *rapid.T, minSteps, maxSteps, reopenPct int) *verifC0
 	h := &verifC09History{}
 	n := maxSteps - rapid.IntRange(0, maxSteps-minSteps).Draw(rt, "nStepsBelowMax") // rapid favours small draws: favour long histories
 	h.States = append(h.States, w.snapshot())
+	// warm-up (half of the histories): bring one channel to the point where
+	// retention trims are possible, which random steps alone reach rarely
+	var warm []string
+	warmCh := 0
+	if rapid.Bool().Draw(rt, "warmUp") {
+		warm = []string{"append", "append", "checkpoint", "adopt"}
+		warmCh = rapid.IntRange(0, len(w.Chans)-1).Draw(rt, "warmChannel")
+	}
 	for i := 0; i < n; i++ {
-		h.Steps = append(h.Steps, w.genStep(rt, reopenPct))
+		if i < len(warm) {
+			h.Steps = append(h.Steps, w.genChanStep(rt, warmCh, false, warm[i]))
+		} else {
+			h.Steps = append(h.Steps, w.genStep(rt, reopenPct))
+		}
 		h.States = append(h.States, w.snapshot())
 	}
 	h.Chans = w.snapshot()
